@@ -400,14 +400,19 @@ def par_one_worker_cache_batch(chk, rng, n):
         r = rng.fork()
         insts.append(gen_layered(r, nvars=r.range(5, 8), per_layer=r.range(3, 5), dom_max=2, depth_free=True, dominance=0, rub=r.choice([0, 3]),
                                  slack=r.choice([0, 2, 5]), dead=False))
+    # plus instances whose INEXACT relaxed diagram of the root holds an exact terminal node that improves the incumbent and that the restricted
+    # diagram missed (every flavour, with and without the cache): the parallel solver must record it although the relaxed diagram is not exact
+    nd = len(insts)
+    insts += [gen_relaxed_improves(rng.fork()) for _ in range(max(20, n // 4))]
     opts = oracle_batch([(I.line(), ["O opt"]) for I in insts])
     blocks = []
-    for I in insts:
+    for k, I in enumerate(insts):
         lines = [I.line()]
         for flv in (0, 1, 2):
-            for fr in (0, 1):
-                for w in (1, 2, 3):
-                    lines.append(sline(1, 1, 1, flv, 1, fr, w, 0, 0))
+            for cache in ((1,) if k < nd else (0, 1)):
+                for fr in (0, 1):
+                    for w in (1, 2, 3):
+                        lines.append(sline(1, 1, 1, flv, cache, fr, w, 0, 0))
         blocks.append(lines)
     out = run_blocks("impl", blocks, chk.pid + "p1c")
     runs = 0
